@@ -314,31 +314,52 @@ impl<Aux> Vm<'_, Aux> {
         let src = func.pos;
         let end = program.bytecode.len() - 1;
         let len = self.runtime_data.value_stack.len() as u32;
+        let call_depth = self.runtime_data.call_stack.len();
 
         // a function call needs 2 stack frames, 1 for the current scope, another for the return
         // address
         //
         // the first one will be used as a trap, to exit the program,
         // the second one is the actual callframe of the function
+        let stack_offset = len
+            .checked_sub(arity)
+            .ok_or(ExecutionErrorPayload::MissingArgument)?;
         for _ in 0..2 {
-            self.runtime_data
-                .call_stack
-                .push(CallFrame {
-                    src_instr_ptr: src,
-                    dst_instr_ptr: end as u32,
-                    stack_offset: len
-                        .checked_sub(arity)
-                        .ok_or(ExecutionErrorPayload::MissingArgument)?,
-                    closure,
-                })
-                .map_err(|_| ExecutionErrorPayload::CallStackOverflow)?;
+            let pushed = self.runtime_data.call_stack.push(CallFrame {
+                src_instr_ptr: src,
+                dst_instr_ptr: end as u32,
+                stack_offset,
+                closure,
+            });
+            if pushed.is_err() {
+                self.unwind(call_depth, len as usize);
+                return Err(ExecutionErrorPayload::CallStackOverflow);
+            }
         }
 
         let mut instr_ptr = src as usize;
-        self._run(&mut instr_ptr).map_err(|err| err.payload)?;
+        if let Err(err) = self._run(&mut instr_ptr) {
+            // the caller may handle the error and carry on: drop the frames and the values
+            // (arguments included) the failed call left behind
+            self.unwind(call_depth, (len - arity) as usize);
+            return Err(err.payload);
+        }
         // pop the trap callframe
         self.runtime_data.call_stack.pop();
         Ok(self.stack_pop())
+    }
+
+    /// Drops the call frames above `call_depth` and the values above `stack_height`, closing the
+    /// upvalues that point at them
+    fn unwind(&mut self, call_depth: usize, stack_height: usize) {
+        while self.runtime_data.call_stack.len() > call_depth {
+            self.runtime_data.call_stack.pop();
+        }
+        while self.runtime_data.value_stack.len() > stack_height {
+            if instr_execution::close_upvalues(self).is_err() {
+                self.stack_pop();
+            }
+        }
     }
 
     fn _run(&mut self, instr_ptr: &mut usize) -> ExecutionResult<()> {
@@ -814,14 +835,9 @@ impl<Aux> Vm<'_, Aux> {
         let result = self._run(&mut instr_ptr);
         // drop the entry frame (and the frames of calls an error or Exit left unfinished), so
         // that repeated runs on one VM do not use up the call stack
-        while self.runtime_data.call_stack.len() > call_depth {
-            self.runtime_data.call_stack.pop();
-        }
         // ... and the values the unfinished calls and scopes left behind (Abort exits with Ok from
         // any depth), so that repeated runs do not use up the value stack either
-        if self.runtime_data.value_stack.len() > stack_height {
-            self.runtime_data.value_stack.clear_until(stack_height);
-        }
+        self.unwind(call_depth, stack_height);
         self.runtime_data.current_program = std::ptr::null();
         result
     }
